@@ -57,7 +57,9 @@ def _run(prog, pid):
                          "%s: the loop %s: %s. Expected: %s"
                          % (short, ("runs over a %s view of the list" % "/".join(bad)) if bad else "can go round without calling %s" % callee,
                             "some elements are never acted on", what))
-        if found < n_rev:
+        # the reviewed tree has n_rev such loops (two copies in waiting_into_tap); merging the copies into one loop over a
+        # candidate list is a legitimate clean-up, losing all of them is not
+        if found < 1:
             # a loop that now runs over an adapted iterator whose type hides the element type, or a loop that disappeared
             cand = [(lp, ty, calls) for lp, ty, calls in any_driver if calls and tysub not in ty and any(c in ty for c in CHANGING)]
             for lp, ty, calls in cand:
